@@ -354,6 +354,19 @@ def assume(t, c, val):
     return t
 
 
+def path_simp(t, depth=0):
+    """Simplify nested conditionals by their own path conditions: in ite(c, a, b) the sub-terms of a may assume c, those of b
+    may assume not c (so `x if c else (y if c else z)` becomes `x if c else z`)."""
+    if not is_term(t) or depth > 12:
+        return t
+    if t[0] == "ite":
+        c = t[1]
+        a = path_simp(deep_simp(assume_deep(t[2], c, True)), depth + 1)
+        b = path_simp(deep_simp(assume_deep(t[3], c, False)), depth + 1)
+        return deep_simp(("ite", c, a, b))
+    return t
+
+
 def assume_deep(t, c, val):
     """Like assume(), but rewrites everywhere inside t (call arguments, lists, ...)."""
     def f(x):
@@ -768,14 +781,40 @@ class SymX:
         # a search over a short literal table that leaves by `return` (`for k, v in TABLE: if x == k: return v`) is
         # executed element by element; the loop summary cannot express an early return anyway
         src_t = loop.source
+        jumps = any(isinstance(n, (ast.Break, ast.Continue)) for b in s.body for n in ast.walk(b))
         if src_t[0] in ("tup", "list") and 1 <= len(src_t[1]) <= (16 if self.unroll_literals else 8) and loop.whole and not loop.enumerated \
                 and (self.unroll_literals or any(isinstance(n, ast.Return) for b in s.body for n in ast.walk(b))) \
-                and not any(isinstance(n, (ast.Break, ast.Continue, ast.For, ast.While)) for b in s.body for n in ast.walk(b)):
+                and not any(isinstance(n, (ast.For, ast.While)) for b in s.body for n in ast.walk(b)):
             del self.loops[loop.id]
+            if not jumps:
+                for el in src_t[1]:
+                    self.assign(s.target, el, st, f, depth)
+                    st = self.block(s.body, st, f, depth)
+                    st.dead = False
+                return st
+            # with break / continue: every iteration runs on a copy; its end state is the merge over all ways of leaving the
+            # body; once a break has happened the remaining iterations leave the state as it was
+            outer = {k_: st.env.get(k_, FALSE) for k_ in ("$cont", "$broke")}
+            outer_snaps = getattr(st, "snaps", [])
+            broke = FALSE
             for el in src_t[1]:
-                self.assign(s.target, el, st, f, depth)
-                st = self.block(s.body, st, f, depth)
+                before = st.copy()
+                it = st.copy()
+                it.env["$cont"], it.env["$broke"], it.snaps = FALSE, FALSE, []
+                self.assign(s.target, el, it, f, depth)
+                after = self.block(s.body, it, f, depth)
+                names = set(after.env)
+                for _, e_ in after.snaps:
+                    names |= set(e_)
+                env2 = {n_: self._with_snaps(after, n_) for n_ in names}
+                b_i = env2.get("$broke", FALSE)
+                after.env, after.snaps, after.dead = env2, [], False
+                after.env["$cont"], after.env["$broke"] = FALSE, FALSE
+                st = after if broke == FALSE else self.merge(broke, before, after)
                 st.dead = False
+                broke = mk_or(broke, b_i)
+            st.env["$cont"], st.env["$broke"] = outer["$cont"], outer["$broke"]
+            st.snaps = outer_snaps
             return st
         carried = [n for n in self._assigned_in(s.body)]
         tgt_names = [n.id for n in ast.walk(s.target) if isinstance(n, ast.Name)]
